@@ -81,7 +81,13 @@ def run_batch(args):
         t0 = time.time()
         try:
             plan = gen.gen_plan(run_seed, prop, tier, faults=args["faults"])
-            v, info = ev.evaluate(plan)
+            try:
+                v, info = ev.evaluate(plan)
+            except HarnessError:
+                # one retry: a child killed by an overloaded machine's timeout is not a property of the tree
+                ev.stats.inc("harness_retries")
+                plan = gen.gen_plan(run_seed, prop, tier, faults=args["faults"])
+                v, info = ev.evaluate(plan)
         except HarnessError as e:
             out["errors"].append({"run_seed": run_seed, "error": str(e)[:1500]})
             continue
@@ -165,7 +171,11 @@ def run_sweep(args):
             plan["ops"][t]["fault"] = {"kind": "F2", "ordinal": n, "of": total}
             plan["sweep"]["ordinal"] = n
             t0 = time.time()
-            v, info = ev.evaluate(plan)
+            try:
+                v, info = ev.evaluate(plan)
+            except HarnessError:
+                ev.stats.inc("harness_retries")
+                v, info = ev.evaluate(plan)
             out["runs"].append({"run_seed": run_seed, "sweep_ordinal": n, "ops": len(plan["ops"]), "judged": info["judged"],
                                 "precondition_failed": info["precondition_failed"], "verdict": v["class"] if v else None,
                                 "hist_digest": info.get("hist_digest"),
